@@ -263,10 +263,17 @@ def gen_raman(rng, tier, widen):
     if fib['con_in'] == 0 and rng.random() < 0.7:
         fib['con_in'] = rng.choice([0.5, 0.25, 1.0])
     pumps = []
-    if rng.random() < 0.5:
+    if rng.random() < 0.55:
+        free = [k for k in range(1, int((hi - lo) / 100e9) - 1) if k not in slots and k - 1 not in slots and k + 1 not in slots]
         for _ in range(rng.randint(1, 2)):
-            pumps.append({'power': round(rng.uniform(0.05, 0.3), 4), 'frequency': rng.choice([201e12, 203e12, 205e12, 206e12]),
-                          'propagation_direction': 'counterprop'})
+            where = rng.choice(['above', 'above', 'above', 'below', 'gap'])
+            if where == 'gap' and not free:
+                where = 'above'
+            f = {'above': rng.choice([201e12, 203e12, 205e12, 206e12]), 'below': rng.choice([185.5e12, 185.8e12]),
+                 'gap': (lo + 50e9 + rng.choice(free) * 100e9) if free else None}[where]
+            d = rng.choice(['counterprop', 'counterprop', 'coprop'])
+            pumps.append({'power': round(rng.uniform(0.02, 0.1) if d == 'coprop' else rng.uniform(0.05, 0.3), 4),
+                          'frequency': f, 'propagation_direction': d})
         if len(pumps) == 2 and pumps[0]['frequency'] == pumps[1]['frequency']:
             pumps.pop()
         fib['length'] = min(fib['length'], 60.0)
@@ -351,6 +358,26 @@ def run(case, drv):
         return {'span': run_span, 'path': run_path, 'malformed': run_span, 'designed': run_designed}[case['kind']](case, drv)
 
 
+def _accepted_malformed_low_power(res, p, comb, init, fiber, freq, pin):
+    """a fibre description the generator meant to be rejected but the implementation accepts must still obey the property:
+    the Raman-on solver in the low-power limit applies length x loss coefficient + every lumped loss once"""
+    from gnpy.core.science_utils import RamanSolver
+    n = len(freq)
+    low = _si(comb, init, pw=[x * 1e-7 for x in pin])
+    with FB.sim_params({'raman_params': {'flag': True, 'method': 'perturbative', 'order': 1,
+                                         'solver_spatial_resolution': 10e3, 'result_spatial_resolution': 10e3}}):
+        srs = RamanSolver.calculate_stimulated_raman_scattering(low, fiber)
+    glass = [FB.length_m(p) * 1e-3 * FB.loss_db_per_km(p, f) + sum(x['loss'] for x in p.get('lumped_losses', []))
+             for f in freq]
+    for i in range(n):
+        got = -10 * math.log10(float(srs.loss_profile[i, -1]))
+        if abs(got - glass[i]) > 1e-6:
+            res.fail(f'low-power limit: an accepted fibre with lumped losses at {[x["position"] for x in p.get("lumped_losses", [])]} km '
+                     f'of {FB.length_m(p) * 1e-3} km: the Raman solver attenuates channel {i} by {got:.6f} dB, length x loss '
+                     f'coefficient + lumped losses = {glass[i]:.6f} dB', channel=i)
+            break
+
+
 def run_span(case, drv):
     res = Result()
     p, comb, init = case['fibre'], case['comb'], case['init']
@@ -369,12 +396,13 @@ def run_span(case, drv):
     ans = drv.ask('c05.span', f=fl(freq), p=fl(pin), init=_init_json(init), **_span_json(p, beta3))
     if impl_err is not None or 'error' in ans:
         res.cmp_exact('Fiber.error-kind', impl_err, ans.get('error'))
+        if impl_err is None and case['kind'] == 'malformed' and case.get('bad') == 'lumped_position':
+            _accepted_malformed_low_power(res, p, comb, init, fiber, freq, pin)
         if case['kind'] != 'malformed':
             res.fail(f'rejected: a well-formed fibre/spectrum was rejected with {impl_err}')
         res.stats.update({'rejected_' + str(impl_err): 1})
         return res
-    if case['kind'] == 'malformed':
-        res.fail(f'accepted: malformed input ({case["bad"]}) was not rejected')
+    # (a malformed input that is accepted disagrees with the model's decision above: C05 has no rejection clause)
     pout = [float(x) for x in out.pch]
     res.cmp_floats('Fiber.__call__.pch', pout, [b2f(x) for x in ans['pch']], abs_=0.0)
     _cmp_acc(res, 'Fiber.__call__', _acc(out), ans)
@@ -430,16 +458,20 @@ def run_span(case, drv):
                      f'{case["init2"]["cd"][i]} (channel {i})', channel=i)
             break
         l1 = a1['latency'][i] - init['latency'][i]
-        if abs(l1 - L * FB.N1 / FB.C) > 1e-9 * max(a1['latency'][i], 1e-12):
-            res.fail(f'latency additive: the span adds {l1!r} s, length x n1 / c = {L * FB.N1 / FB.C!r} s (channel {i})')
+        l2 = a2['latency'][i] - case['init2']['latency'][i]
+        if abs(l1 - l2) > 1e-9 * max(a1['latency'][i], a2['latency'][i], 1e-12):
+            res.fail(f'latency additive: the span adds {l1!r} s on top of {init["latency"][i]} but {l2!r} s on top of '
+                     f'{case["init2"]["latency"][i]} (channel {i})')
             break
         want = math.sqrt(init['pmd'][i] ** 2 + pmd_span ** 2)
         if abs(a1['pmd'][i] - want) > 1e-9 * max(want, 1e-30):
             res.fail(f'PMD quadrature: {a1["pmd"][i]!r} s after the span, sqrt(in^2 + (pmd_coef sqrt(L))^2) = {want!r} s')
             break
-        if a1['pdl'][i] != init['pdl'][i]:
+        if abs(a1['pdl'][i] - init['pdl'][i]) > 1e-12 * max(abs(init['pdl'][i]), 1e-300):
             res.fail(f'PDL: a fibre changed the PDL from {init["pdl"][i]} to {a1["pdl"][i]} dB')
             break
+    # the value of the latency per metre (n1 / c) is a convention of the code: correspondence
+    res.cmp_float('FiberParams.latency = length x n1 / c', a1['latency'][0] - init['latency'][0], L * FB.N1 / FB.C, abs_=1e-18)
     res.nontrivial = True
     res.stats.update({'span_channels': n, 'loss_per_frequency': int(isinstance(p['loss_coef'], dict)),
                       f'lumped_{len(p.get("lumped_losses", []))}': 1, 'lumped_same_position': int(dup),
@@ -599,6 +631,10 @@ def run_path(case, drv):
             if abs(x - y) > 1e-9 * m:
                 res.fail(f'order: {key} depends on the span order: {x!r} vs {y!r} (channel {c})')
                 return res
+    # latency proportional to the length across the fibres of the path
+    per_m = [single[i]['latency'][0] / FB.length_m(e['params']) for i, e in enumerate(els) if e['type'] == 'fiber']
+    if per_m and max(per_m) - min(per_m) > 1e-9 * max(per_m):
+        res.fail(f'latency additive: the latency per metre differs between the fibres of the path: {per_m[:4]}')
     kinds = [e['type'] for e in els]
     res.nontrivial = len(set(json_key(e) for e in els)) > 1 and order2 != order1
     res.stats.update({'kind_path': 1, f'path_len_{len(els)}': 1, 'path_fibers': kinds.count('fiber'),
@@ -689,13 +725,12 @@ def run_designed(case, drv):
     nsplit = 0
     for i, e in enumerate(line):
         lengths = [el.params.length for el in subs[f'f{i}']]
-        if abs(sum(lengths) - e['length'] * 1e3) > 1e-9 * e['length'] * 1e3:
-            res.fail(f'split: fibre f{i} of {e["length"]} km became spans of {lengths} m')
+        # how the design cuts a fibre (C08) is not a C05 clause: correspondence
+        res.cmp_float(f'split_fiber: total length of the spans of f{i}', sum(lengths), e['length'] * 1e3, rel=1e-9)
         if len(lengths) > 1:
             nsplit += 1
         for el in subs[f'f{i}']:
-            if abs(el.params.pmd_coef - e.get('pmd_coef', 1.265e-15)) > 1e-24:
-                res.fail(f'split: span {el.uid} has pmd_coef {el.params.pmd_coef}, the fibre {e.get("pmd_coef", 1.265e-15)}')
+            res.cmp_float(f'split_fiber: pmd_coef of {el.uid}', el.params.pmd_coef, e.get('pmd_coef', 1.265e-15), abs_=1e-24)
     # ---- correspondence: the path as crossed vs accPath of the model
     mels = []
     amp_pmd2 = amp_pdl2 = 0.0
@@ -718,13 +753,20 @@ def run_designed(case, drv):
     m = drv.ask('c05.path', elements=mels, f=fl(freq), init=_init_json(zero))
     _cmp_acc(res, 'designed path (receiver)', got, m)
     # ---- monitor: the ORIGINAL fibres, own arithmetic
-    lat = sum(e['length'] * 1e3 * FB.N1 / FB.C for e in line)
+    # latency: proportional to the length actually crossed, with the latency per metre of a 1 km probe fibre of the same
+    # class crossed on its own (the constant n1 / c itself is a convention: correspondence)
+    from gnpy.core.info import create_arbitrary_spectral_information
+    probe = FB.mk_fiber({'length': 1.0, 'length_units': 'km', 'loss_coef': 0.2, 'con_in': 0, 'con_out': 0, 'pmd_coef': 0.0})
+    per_m = float(probe(create_arbitrary_spectral_information([193.0e12, 193.1e12], pch=1e-3, baud_rate=32e9, tx_osnr=40.0,
+                                                               tx_power=1e-3, slot_width=50e9)).latency[0]) / 1000.0
+    res.cmp_float('FiberParams.latency per metre = n1 / c', per_m, FB.N1 / FB.C, rel=1e-12)
+    lat = sum(e['length'] * 1e3 * per_m for e in line)
     pmd = math.sqrt(sum(e.get('pmd_coef', 1.265e-15) ** 2 * e['length'] * 1e3 for e in line) + amp_pmd2)
     pdl = math.sqrt(amp_pdl2)
-    for c in (0, nch // 2, nch - 1):
+    for c in range(nch):
         cd = sum(FB.cd_ref(params(e, e['length'] * 1e3), freq[c], e['length'] * 1e3) for e in line)
         if abs(got['latency'][c] - lat) > 1e-9 * lat:
-            res.fail(f'latency additive: receiver sees {got["latency"][c]!r} s, sum over the fibres of length x n1 / c = {lat!r} s '
+            res.fail(f'latency additive: receiver sees {got["latency"][c]!r} s, sum over the fibres of length x latency per metre = {lat!r} s '
                      f'(fibres {[e["length"] for e in line]} km, cut into {[len(subs[k]) for k in subs]} spans)')
             break
         if abs(got['cd'][c] - cd) > 1e-9 * abs(cd):
@@ -749,13 +791,13 @@ def run_designed(case, drv):
         conn = sum(el.params.con_in + el.params.con_out for el, _ in mine)
         # padding: the user's att_in, once; the design may only pad an UNCUT short span up to the minimum span loss
         pad = sum(el.params.att_in for el, _ in mine)
-        if len(mine) > 1 and abs(pad - e.get('att_in', 0)) > 1e-12:
-            res.fail(f'link loss budget: the {len(mine)} spans of fibre f{i} carry {pad} dB of padding in total, the fibre was '
-                     f'given {e.get("att_in", 0)} dB')
-        if pad < e.get('att_in', 0) - 1e-12:
-            res.fail(f'link loss budget: fibre f{i} was given {e["att_in"]} dB of padding, the designed span has {pad} dB')
+        # where the design puts padding is its policy (C08/C09), not the loss budget: correspondence
+        if len(mine) > 1:
+            res.cmp_float(f'split_fiber: total att_in of the spans of f{i}', pad, e.get('att_in', 0), abs_=1e-12)
+        elif pad < e.get('att_in', 0) - 1e-12:
+            res.mismatch(f'design: att_in of f{i}', pad, e.get('att_in', 0))
         p_e = params(e, e['length'] * 1e3)
-        for c in (0, nch // 2, nch - 1):
+        for c in range(nch):
             want = (pad + conn + e['length'] * FB.loss_db_per_km(p_e, freq[c])
                     + sum(x['loss'] for x in e.get('lumped_losses', [])))
             if abs(float(total[c]) - want) > 1e-8:
@@ -772,10 +814,9 @@ def run_designed(case, drv):
     got2 = _acc(si2)
     n1 = sum(isinstance(el, Fiber) for el in path)
     n2 = sum(isinstance(el, Fiber) for el in path2)
-    if n1 != n2:
-        res.fail(f'pre-cut: the designed link has {n1} spans, the same link given as explicit spans {n2}')
+    res.cmp_exact('design: span count of the auto-cut link vs the pre-cut link', n1, n2)
     for key in ('cd', 'pmd', 'pdl', 'latency'):
-        for c in (0, nch - 1):
+        for c in range(nch):
             x, y = got[key][c], got2[key][c]
             if abs(x - y) > 1e-9 * max(abs(x), abs(y), 1e-30):
                 res.fail(f'pre-cut: {key} at the receiver is {x!r} with the long fibres cut by the design, {y!r} with the '
@@ -887,7 +928,8 @@ def run_raman(case, drv):
     dzs = np.diff(z2)
     S2 = float(np.sum(dzs ** 2))
     budget = [L * 1e-3 * FB.loss_db_per_km(p, f) + sum(x['loss'] for x in p.get('lumped_losses', [])) for f in freq]
-    euler_used = bool(pumps)           # co + counter waves: iterative_algorithm (explicit Euler) whatever the method
+    counter = [q for q in pumps if q['propagation_direction'] == 'counterprop']
+    euler_used = bool(counter)         # co + counter waves: iterative_algorithm (explicit Euler) whatever the method
 
     def bounds(powers):
         y = float(np.max(np.abs(cr) @ np.asarray(powers)))
@@ -935,10 +977,8 @@ def run_raman(case, drv):
                          f'{got:.9f} dB, padding + connectors + length x loss coefficient + lumped losses = {full[i]:.9f} dB '
                          f'(tolerance {tol:.3g} dB)', channel=i)
                 break
-    want_loss = budget_db(p, FB.ref_frequency(p))
-    if abs(float(fiber.loss) - want_loss) > 1e-9:
-        res.fail(f'Fiber.loss: {type(fiber).__name__}.loss = {float(fiber.loss):.9f} dB, budget at the reference frequency '
-                 f'{want_loss:.9f} dB')
+    res.cmp_float(f'{type(fiber).__name__}.loss vs the budget at the reference frequency', float(fiber.loss),
+                  budget_db(p, FB.ref_frequency(p)), abs_=1e-9)
     # R2: perturbative and numerical agree
     yp, x = bounds(monp)
     for order in sorted({1, case['order']}):
@@ -970,15 +1010,30 @@ def run_raman(case, drv):
                              f'loss of channel {i} by {with_[i] - without[i]:.9f} dB (tolerance {tol:.3g} dB)', channel=i)
                     break
     # R4: counter-propagating pumps (above the signal band) only add gain
-    if pumps:
+    if pumps and len(counter) == len(pumps) and all(q['frequency'] > max(freq) for q in pumps):
         off = _solver_loss(case, _raman_fiber(case, pumps=low_pumps), pw)
         for i in range(n):
             if loss_main[i] > off[i] + 1e-6:
                 res.fail(f'pumps only add gain: with the counter-propagating pumps on channel {i} loses {loss_main[i]:.6f} dB, '
                          f'with the pumps off {off[i]:.6f} dB', channel=i)
                 break
+    # a RamanFiber crossed with the Raman computation OFF applies the plain loss budget (pump-less RamanFibers: with pumps
+    # and the flag off the element raises IndexError in the spontaneous-scattering step - reported to the lead)
+    if type(fiber).__name__ == 'RamanFiber' and not pumps:
+        with FB.sim_params(SIM_OFF):
+            out_off = _raman_fiber(case)(_si(comb, case['init']))
+        for i in range(n):
+            got = 10 * math.log10(pw[i] / float(out_off.pch[i]))
+            if abs(got - budget_db(p, freq[i])) > 1e-9:
+                res.fail(f'loss budget: RamanFiber with the Raman computation off attenuates channel {i} by {got:.9f} dB, padding + '
+                         f'connectors + length x loss coefficient + lumped losses = {budget_db(p, freq[i]):.9f} dB', channel=i)
+                break
+        res.stats.update({'raman_class_flag_off_budget': 1})
     res.nontrivial = effect > 1e-4
-    res.stats.update({'kind_raman': 1, f'raman_{case["method"]}': 1, f'raman_pumps_{len(pumps)}': 1,
+    res.stats.update({'raman_pumps_co': sum(1 for q in pumps if q['propagation_direction'] == 'coprop'),
+                      'raman_pumps_below_band': sum(1 for q in pumps if q['frequency'] < min(freq)),
+                      'raman_pumps_in_gap': sum(1 for q in pumps if min(freq) < q['frequency'] < max(freq)),
+                      'kind_raman': 1, f'raman_{case["method"]}': 1, f'raman_pumps_{len(pumps)}': 1,
                       f'raman_lumped_{len(p.get("lumped_losses", []))}': 1,
                       'raman_effect_above_0.1dB': int(effect > 0.1), 'raman_effect_above_1dB': int(effect > 1.0),
                       'raman_padding': int(p.get('att_in', 0) > 0), 'raman_con_in': int(p['con_in'] > 0),
@@ -1009,15 +1064,16 @@ def run_sprs(case, drv):
                       pump_cr=[fl(cr[:, k]) for k in range(cr.shape[1])], pump_profile=[fl(r) for r in srs.power_profile[n:]])
         res.cmp_floats(f'RamanSolver.calculate_spontaneous_raman_scattering[{tag}]', ase, [b2f(x) for x in ans['ase']],
                        abs_=1e-30)
-        for i in range(n):
-            if not (ase[i] >= 0.0):
-                res.fail(f'ASE sign: {tag} of the pump list ({[(q["propagation_direction"], q["frequency"]) for q in pumps]}): '
-                         f'spontaneous Raman ASE on channel {i} is {ase[i]!r} W', channel=i)
-                break
+        # ASE >= 0 and its independence of the pump-list order are not C05 clauses (C02 owns ASE >= 0; theorems
+        # sprs_ase_nonneg / sprs_pump_order_irrelevant are about the model): correspondence
+        neg = [i for i in range(n) if not (ase[i] >= 0.0)]
+        if neg:
+            res.mismatch(f'spontaneous Raman ASE sign[{tag}]', ase[neg[0]], '>= 0 (sprs_ase_nonneg)', channel=neg[0],
+                         pumps=[(q['propagation_direction'], q['frequency']) for q in pumps])
         results.append(ase)
     a, b = results
-    if any(abs(x - y) > 1e-9 * max(abs(x), abs(y), 1e-30) for x, y in zip(a, b)):
-        res.fail(f'pump order: the spontaneous Raman ASE depends on the order of the pump list: {a[:3]} vs {b[:3]}')
+    res.cmp_floats('spontaneous Raman ASE: pump list as given vs reversed (sprs_pump_order_irrelevant)', a, b, rel=1e-9,
+                   abs_=1e-30)
     dirs = [q['propagation_direction'] for q in case['pumps']]
     first_co = dirs.index('coprop') if 'coprop' in dirs else None
     counter_before_co = first_co is not None and 'counterprop' in dirs[:first_co]
